@@ -162,6 +162,11 @@ func ZZ_C04_LeaveVsJoin() {
 	for i := range w.present {
 		w.present[i] = i != j
 	}
+	if rt.Bound("PRED") == 1 {
+		// only the case where the leaver is the joiner's predecessor (the joiner lands between the leaver and the
+		// leaver's successor) on a ring of exactly N members
+		rt.Assume(n == N && a == w.prev(j))
+	}
 	w.stabilised()
 	ctx := context.Background()
 	key := []byte("a")
